@@ -198,6 +198,18 @@ def t_formula(rng, gid, configured=None, cls='FormulaGrader'):
         pal['right'] = ['%s+2*%s+1' % (x, v0) for x in rights] + [answer]
         partial = None
         others = others + ['dd']
+    if cls == 'FormulaGrader' and r >= 0.86 and maybe(rng, 0.6):
+        # a vector-valued answer in a plain FormulaGrader (max_array_dim=1): a scalar or
+        # wrong-length submission is a shape error inside the comparison itself
+        v0 = variables[0]
+        cfg['max_array_dim'] = 1
+        answer = '[%s, 2*%s, 1]' % (v0, v0)
+        pal['right'] = [answer, '[%s, %s+%s, 1]' % (v0, v0, v0)]
+        pal['wrong'] = ['[%s, %s, 1]' % (v0, v0), '[0, 0, 0]']
+        pal['malformed'] = ['7', v0, '[%s, 2*%s]' % (v0, v0), '[[%s]]' % v0, '[1,2,3]+1', '[1,2,3]/[1,2,3]'] + \
+            pal['malformed'][:6]
+        partial = None
+        others = ['[1, %s, 2]' % v0]
     if 'comparer' not in cfg and maybe(rng, 0.25) and configured:
         stub = gid + '.cmp'
         kind = pick(rng, ['equal', 'table'])
@@ -214,9 +226,9 @@ def t_formula(rng, gid, configured=None, cls='FormulaGrader'):
             ans['msg'] = pick(rng, ['', 'noted'])
         cfg['answers'] = ans if maybe(rng, 0.7) else T(ans, {'expect': rights[0], 'grade_decimal': 0.5})
         targets.append({'name': stub, 'n': cfg.get('samples', 5), 'where': 'cmp'})
-    elif configured and maybe(rng, 0.12):
+    elif configured and maybe(rng, 0.18):
         # built-in comparers of the library
-        which = rng.randrange(3)
+        which = rng.choice([0, 1, 2, 2])
         if which == 0:
             cfg['answers'] = {'expect': {'comparer': {'__cmp__': {'builtin': 'congruence_comparer'}},
                                          'comparer_params': [answer, '2*pi']},
@@ -232,7 +244,8 @@ def t_formula(rng, gid, configured=None, cls='FormulaGrader'):
                 'equals': 1.0, 'proportional': pick(rng, [0.5, 0]), 'offset': pick(rng, [0, 0.25]),
                 'linear': pick(rng, [0, 0.1])}}}, 'comparer_params': [answer]}}
             cfg['samples'] = max(cfg.get('samples', 5), 3)
-            pal['wrong'] = pal['wrong'] + ['2*(%s)' % answer, '(%s)+3' % answer, '3*(%s)-1' % answer, '0']
+            pal['wrong'] = ['0', '2*(%s)' % answer, '0*%s' % variables[0], '3*(%s)' % answer, '(%s)+3' % answer,
+                            '3*(%s)-1' % answer]
     elif configured:
         cfg['answers'] = answers_of(rng, [answer] + rights, partial=partial)
     return {'bp': {'id': gid, 'cls': cls, 'cfg': cfg}, 'configured': configured, 'kind': 'text',
